@@ -98,6 +98,19 @@ def run(ctx):
                             trip = Poly.atom('len(%s)' % cname)
                 if trip is None:
                     why = 'skip predicate does not match a declared collection'
+            elif not skip and cond_prints and isinstance(st.target, ast.Tuple) and it.endswith('.items()') and len(st.body) == 1 and isinstance(st.body[0], ast.If) \
+                    and not st.body[0].orelse and all(getattr(s, '_parent', None) is st.body[0] for s in body_prints):
+                # for key, var in X.items(): if key != E: <prints>   - the same selection written positively
+                kname = st.target.elts[0].id
+                t = st.body[0].test
+                if isinstance(t, ast.Compare) and isinstance(t.ops[0], ast.NotEq) and isinstance(t.left, ast.Name) and t.left.id == kname:
+                    pred = '$ != ' + norm(t.comparators[0])
+                    base = it[:-len('.items()')]
+                    for cname, (csrc, cpred) in colls.items():
+                        if csrc in (base + '.keys()', base) and cpred == pred:
+                            trip = Poly.atom('len(%s)' % cname)
+                if trip is None:
+                    why = 'selection predicate does not match a declared collection'
             else:
                 why = 'a header line inside this loop is written conditionally (%s)' % (
                     norm(skip[0].test) if skip else norm(getattr(cond_prints[0], '_parent').test) if cond_prints and isinstance(getattr(cond_prints[0], '_parent'), ast.If) else 'nested')
@@ -218,7 +231,7 @@ def run(ctx):
     for st in iter_stmts(rdf.body):
         if isinstance(st, ast.If) and 'MISSING_LINE' in norm(st.test) and 'LAST_VAR_DESC_LINE' in norm(st.test):
             branch = st
-    wl = [st for st in iter_stmts(fn.body) if is_print_to(st) and isinstance(st.value.args[0], ast.Call) and norm(st.value.args[0]).startswith('delim.join([key, getattr(var, \'units\'')]
+    wl = [st for st in iter_stmts(fn.body) if is_print_to(st) and st.value.args and isinstance(st.value.args[0], ast.Call) and norm(st.value.args[0]).startswith('delim.join([key, getattr(var, \'units\'')]
     if branch is None or not wl:
         ctx.undec('R-UNITFIELD', 'variable lines', wrd, 'variable-description branch of the reader or the writer line delim.join([key, units]) not found in the recognised form')
     else:
@@ -277,7 +290,7 @@ def run(ctx):
     if not nshape:
         ctx.undec('R-DATASHAPE', 'data block', wrd, 'per-variable indexing of the parsed block not found')
     ctx.rule('R-LINESTATE', 'reader line constants: variable lines, special-comment block and user-comment block are contiguous')
-    lenv = {}
+    lenv = dict((k_, Poly.const(v_)) for k_, v_ in consts.items() if isinstance(v_, int))     # the integer line constants may be used by name
     defs = {}
     for st in iter_stmts(rd.body):
         if isinstance(st, ast.Assign) and isinstance(st.targets[0], ast.Name) and st.targets[0].id.endswith('_LINE'):
@@ -466,7 +479,8 @@ def run(ctx):
              and kw(c, 'mask') is not None]
     if not masks:
         raise AnalysisError('construct not understood: mask construction in the ffi1001 reader')
-    mk = kw(masks[0], 'mask')
+    from .. import paths as _paths
+    mk = _paths.subst(kw(masks[0], 'mask'), _paths.dominating_env(rd, api.stmt_of(masks[0])))      # a named mask is the comparison that defines it
     tol = [dotted(c.func) for c in walk_expr(mk) if isinstance(c, ast.Call) and (dotted(c.func) or '').split('.')[-1] in ('isclose', 'allclose')]
     eq = isinstance(mk, ast.Compare) and isinstance(mk.ops[0], ast.Eq)
     if eq and not tol:
